@@ -3,6 +3,7 @@
     and HandleSearch / UID SEARCH never end in [RPanic]. *)
 From Coq Require Import String Ascii List Bool Arith NArith ZArith Lia.
 From Raven Require Import Base.GoStr Base.GoStrFacts Model.Search.
+From Raven Require Model.SeqSet.
 Import ListNotations.
 
 Lemma andk_total c k : k <> None -> andk c k <> None.
@@ -76,7 +77,7 @@ Proof.
       subst. reflexivity. }
     pose proof (group_inner_length _ G') as GI.
     pose proof (pst_measure (group_inner t) [] false 0%Z) as P. unfold parse_search_tokens. cbn [length] in P. lia. }
-  destruct (is_sequence_set (to_upper t)); [apply andk_total, IH; lia|].
+  destruct (Model.SeqSet.is_sequence_set (to_upper t)); [apply andk_total, IH; lia|].
   destruct (kw_of (to_upper t)) as [k|]; [|apply IH; lia].
   destruct k;
     repeat (match goal with
@@ -107,7 +108,7 @@ Proof.
   destruct (length args <? 1)%nat; [discriminate|].
   match goal with |- (if ?c then _ else _) <> _ => destruct c; [discriminate|] end.
   match goal with |- (if ?c then _ else _) <> _ => destruct c; [discriminate|] end.
-  destruct (evaluate_search_criteria T msgs _) eqn:E; [discriminate|].
+  destruct (evaluate_search_criteria T (fill_max msgs) _) eqn:E; [discriminate|].
   unfold evaluate_search_criteria in E. now apply collect_total in E.
 Qed.
 
